@@ -173,6 +173,8 @@ def monitor(ex, final):
                 continue
             if not d['settled_after'] or u['e'].get('step') != len(ex.actions) or final:
                 continue                # judged once, right after its own (settled) step
+            if ex.world.app_log.busy:
+                continue                # a handler is still taking its time: the unit is not done
             check_unit(ex, s, u, d, seen, order, sync, limit)
 
 
@@ -284,6 +286,9 @@ def check_unit(ex, s, u, d, seen, order, sync, limit):
 
 
 PROFILE = {
+    'world_kw_st': st.fixed_dictionaries({
+        'handler_delay': st.sampled_from([{}, {}, {}, {'disconnect': 0.25}, {'message': 0.25},
+                                          {'disconnect': 0.25, 'message': 0.25}])}),
     'weights': {'open': 3, 'poll': 3, 'post': 9, 'probe_step': 4, 'ws_send': 6, 'ws_close': 1,
                 'pong': 1, 'app_send': 1, 'advance': 2, 'fault': 0},
     'max_sessions': 3,
